@@ -564,19 +564,19 @@ func (cp *ClientPromise) Fulfill(c *Client) {
 	// resolved hook in that window drops a reference that was never added:
 	// the resolved capability is shut down while clients still refer to it.
 	switch {
-	case rh == cp.h:
-		cp.h.refs += refs
-		cp.h.mu.Unlock()
 	case rh != nil:
 		// Walk to the hook the chain of resolutions ends in (as resolveHook
 		// does), holding the mutex of the hook the walk is at.  A chain that
-		// leads back to cp.h is a cycle: the promise would resolve to itself
-		// through other promises, and every walk over the chain would spin (or,
-		// here, lock cp.h.mu a second time).  Such a promise resolves to an
-		// error instead.
-		rh.mu.Lock()
-		cycle := false
-		for rh.isResolved() && rh.resolvedHook != rh {
+		// leads back to cp.h is a cycle: the promise would resolve to itself,
+		// directly or through other promises, and every walk over the chain
+		// would spin (or, here, lock cp.h.mu a second time); resolved directly
+		// to itself it would be shut down below while it still counts
+		// references.  Such a promise resolves to an error instead.
+		cycle := rh == cp.h
+		if !cycle {
+			rh.mu.Lock()
+		}
+		for !cycle && rh.isResolved() && rh.resolvedHook != rh {
 			r := rh.resolvedHook
 			rh.mu.Unlock()
 			rh = r
